@@ -221,8 +221,10 @@ def a_lists(tier, seed, rabin):
         P = [[15], [a], [b], [a, b], [b, c], [d, 0]]
         G = [[15], [c], [d, e]]
     else:
-        P = [[0], [a], [a, b], [b, d]]
-        G = [[15], [c], [d], [c, e], [d, a]]
+        # P = TRUE makes it a pure safety game, G = FALSE a pure
+        # persistence game
+        P = [[0], [15], [a], [a, b], [b, d]]
+        G = [[15], [0], [c], [c, e], [d, a]]
     return P, G
 
 
@@ -320,6 +322,15 @@ B_SHAPES = {
         G=["TRUE", "y", "c /\\ x", "~ y \\/ c"],
         PP=[("y", "c")],
         GG=[("y", "~ y"), ("c", "x")]),
+    'B7': dict(    # integer rigid constant
+        env=[['x', 'bool']], sys=[['y', [0, 2]]], const=[['k', [0, 2]]],
+        E=["TRUE", "x' <=> (y < k)", "x => x'", "FALSE"],
+        S=["TRUE", "y' >= y", "(y' = y + 1) \\/ (y' = y)",
+           "(y' = y + 1) \\/ (y' = 0 /\\ x)", "y' <= k", "FALSE"],
+        P=["FALSE", "y = k", "y <= k", "TRUE"],
+        G=["TRUE", "y = k", "y > k", "x /\\ (y = 0)"],
+        PP=[("y = k", "y = 0")],
+        GG=[("y = k", "y = 0")]),
 }
 
 
